@@ -106,7 +106,7 @@ def _compile_lit_interpreted(chk, m):
     prog = Program(chk.repo, m_types_env(m), primary="backend.sql")
     I, F, S, B = DT("Int64"), DT("Float64"), DT("String"), DT("Bool")
     values = [(-1, I), (0, I), (7, I), (-1.5, F), (2.5, F), (float("nan"), F), (float("inf"), F), (float("-inf"), F), (None, F), (None, I), (None, S), ("a'b%_", S), (True, B)]
-    n = 0
+    n = undecided = 0
     for short, cname in (("backend.sql", "SqlImpl"), ("backend.sqlite", "SqliteImpl"), ("backend.duckdb", "DuckDbImpl"), ("backend.mssql", "MsSqlImpl"), ("backend.postgres", "PostgresImpl"), ("backend.ibm_db2", "IbmDb2Impl")):
         try:
             mod = chk.repo.mod(short)
@@ -119,13 +119,20 @@ def _compile_lit_interpreted(chk, m):
         f = cls_.methods.get("compile_lit")
         if f is None or f.owner is not cls_:
             continue
+        lit_cls = prog.cls("tree.col_expr", "LiteralCol")
         for val, dt in values:
             for const in (True, False):
                 o = Obj(cls_)
                 o.attrs.update({"sqa_type": Native(lambda t: Var(f"sqltype:{t!r}"), "cls.sqa_type"), "nan": Native(lambda: Var("nan"), "cls.nan"), "inf": Native(lambda: Var("inf"), "cls.inf")})
-                lit = prog.new("tree.col_expr", "LiteralCol", val=val, _dtype=DT("Const", dt) if const else dt, _ftype=None)
-                n += 1
                 label = f"{cname}.compile_lit({val!r}: {'const ' if const else ''}{dt!r})"
+                # the literal as the library builds it (its constructor decides what the stored type is)
+                try:
+                    lit = prog.call(lit_cls, [val, DT("Const", dt) if const else dt])
+                except (PyRaise, AnalysisError, SymbolicBranch) as e:
+                    chk.undecided.append(f"R3v: LiteralCol({val!r}, {dt!r}) not interpreted ({str(e)[:100]})")
+                    undecided += 1
+                    continue
+                n += 1
                 try:
                     r = prog.call(f.bind(o), [lit])
                 except PyRaise as p_:
@@ -133,6 +140,7 @@ def _compile_lit_interpreted(chk, m):
                     continue
                 except (AnalysisError, SymbolicBranch) as e:
                     chk.undecided.append(f"R3v: {label} not interpreted ({str(e)[:100]})")
+                    undecided += 1
                     continue
                 ok = isinstance(r, (Term, Var))
                 why = f"returns {r!r}"
@@ -142,7 +150,49 @@ def _compile_lit_interpreted(chk, m):
                     ok = top in ("cast", "Grouping", "type_coerce") or (isinstance(r, Term) and r.fn.startswith("op:"))
                     why = f"builds {r!r}: a bare inline negative literal (`-` in front of it gives `--`, a SQL comment)"
                 chk.ob("R3v", mod, f.node, label, ok, f"{label} {why}")
+                if not isinstance(r, Term):
+                    continue
+                # how the python value reaches the statement: only as the value of sqa.literal(.., literal_execute=True) or as
+                # the operand of sqa.cast / type_coerce; a null is a typed bound literal, never the NULL keyword object
+                special = isinstance(val, float) and (val != val or val in (float("inf"), float("-inf")))
+                sites = []
+
+                def visit(t, parent=None, pos=None):
+                    if isinstance(t, Term):
+                        for i, x in enumerate(t.args):
+                            visit(x, t, i)
+                        for k, x in t.kwargs.items():
+                            visit(x, t, k)
+                        if t.recv is not None:
+                            visit(t.recv, t, "recv")
+                    elif isinstance(t, (list, tuple)):
+                        for x in t:
+                            visit(x, parent, pos)
+                    elif type(t) is type(val) and (t == val or (t != t and val != val)) and parent is not None:
+                        sites.append((parent, pos))
+
+                visit(r)
+                bad_site = None
+                for par, pos in sites:
+                    tail = par.fn.split(".")[-1]
+                    if tail == "literal" and pos == 0 and par.kwargs.get("literal_execute") is True:
+                        continue
+                    if tail in ("cast", "type_coerce") and pos == 0:
+                        continue
+                    if pos == "literal_execute" or (val is None and pos != 0):
+                        continue  # (True / None as an option of a constructor is not the value)
+                    bad_site = f"{par.fn}(..) argument {pos}"
+                kw_null = any(isinstance(t, Term) and t.fn.split(".")[-1] in ("null", "Null") for t in r.walk())
+                if val is None:
+                    chk.ob("R3v", mod, f.node, f"{label}: a typed bound literal, not the NULL keyword", not kw_null,
+                           f"{label} returns the SQL NULL keyword object ({r!r}) instead of a typed bound literal: SQLAlchemy turns "
+                           "`col == <null()>` into `col IS NULL`, the null literal is no longer compared as data")  # fmt: skip
+                if not special:
+                    chk.ob("R3v", mod, f.node, f"{label}: the value is rendered by sqa.literal(.., literal_execute=True) / sqa.cast", bad_site is None and (bool(sites) or kw_null),
+                           f"{label} builds {r!r}: the python value reaches the statement through {bad_site or 'nothing at all (it is dropped)'} instead of "
+                           "sqa.literal(.., literal_execute=True) / sqa.cast(value, ..)")  # fmt: skip
     chk.floor("R3v", "literal compilations interpreted", n, 40)
+    return undecided == 0
 
 
 def run(chk):
@@ -161,6 +211,11 @@ def run(chk):
     chk.rule("R6", "the LiteralCol branch of SQL compile_col_expr returns compile_lit(expr) or the raw value for const parameters")
 
     n_like = n_raw = n_lit = n_compile = n_pl = 0
+    from ..model import model_of as _mo
+
+    # R3v decides how literal values reach the statement on the interpreted compile_lit; the walk over its return statements (R3)
+    # is only consulted when the interpretation left something open
+    lit_decided = _compile_lit_interpreted(chk, _mo(chk))
     for short in SQL_FILES:
         try:
             mod = repo.mod(short)
@@ -252,7 +307,7 @@ def run(chk):
             if isinstance(node, ast.FunctionDef) and node.name == "compile_lit":
                 n_lit += 1
                 pname = node.args.args[1].arg if len(node.args.args) > 1 else "lit"
-                for r in ast.walk(node):
+                for r in ast.walk(node) if not lit_decided else ():
                     if not isinstance(r, ast.Return) or r.value is None:
                         continue
                     uses = [
@@ -314,9 +369,6 @@ def run(chk):
                                f"compile_lit returns the SQL NULL keyword object (`{norm(r.value)[:60]}`) instead of a typed bound literal: "
                                "SQLAlchemy turns `col == <null()>` into `col IS NULL`, the null literal is no longer compared as data")  # fmt: skip
     chk.floor("R1", "LIKE-family call sites", n_like, 11)
-    from ..model import model_of as _mo
-
-    _compile_lit_interpreted(chk, _mo(chk))
     chk.floor("R2", "raw-text call sites", n_raw, 14)
     chk.floor("R3", "compile_lit definitions", n_lit, 2)
     chk.floor("R4", "compile() call sites", n_compile, 4)
